@@ -691,6 +691,59 @@ def reentrancy_stream(ctx):
                              "verifies: %r" % (alg, other, a.decode("latin-1"), res[1] if res[0] == "ok" else res[1]))
 
 
+def lifecycle_stream(ctx):
+    """a SEQUENCE of short-lived private keys of one type in one process: make key k_i, sign, verify under the same
+    object (must be True) and verify k_{i-1}'s signature under k_i (must be False), drop every reference and collect,
+    next.  Whatever a class remembers about earlier key objects must not leak into later ones."""
+    import gc
+    import io
+    import paramiko
+
+    rng = ctx.rng
+    n = 30 if ctx.thorough else 8
+
+    def make(kind, i):
+        if kind == "rsa":
+            return paramiko.RSAKey.generate(1024) if i % 2 == 0 else \
+                paramiko.RSAKey.from_private_key(io.StringIO(lk.pem_of(lk.gen_crypto_key("rsa", 1024, 100 + i))))
+        if kind == "ec":
+            return paramiko.ECDSAKey.generate(bits=(256, 384, 521)[i % 3])
+        from cryptography.hazmat.primitives.asymmetric import ed25519
+        return paramiko.Ed25519Key.from_private_key(io.StringIO(lk.pem_of(ed25519.Ed25519PrivateKey.generate(), "openssh")))
+
+    for kind in ("rsa", "ec", "ed"):
+        prev = None     # (data, blob, fingerprint) of the previous key - bytes only, never the object
+        for i in range(n):
+            key = make(kind, i)
+            data = rng.randbytes(20)
+            algs = [None, "rsa-sha2-256", "rsa-sha2-512"] if kind == "rsa" else [None]
+            alg = algs[i % len(algs)]
+            blob = (key.sign_ssh_data(data, alg) if alg else key.sign_ssh_data(data)).asbytes()
+            own = lk.call_verify(key, data, blob)
+            fp = key.fingerprint
+            case = {"stream": "lifecycle", "kind": kind, "position_in_sequence": i, "algorithm": alg, "key": fp,
+                    "data": data.hex(), "blob": blob.hex(), "private_key_pem": lk.pem_of(key.key) if kind == "rsa" else None}
+            ctx.case(("lifecycle", kind, i, fp), True)
+            ctx.dist("lifecycle:" + kind)
+            own_txt = repr(own[1]) if own[0] == "ok" else type(own[1]).__name__
+            if own != ("ok", True):
+                ctx.fail("genuine-rejected-after-earlier-keys:" + kind, case,
+                         "key #%d of a sequence of short-lived %s keys: its own signature verified as %s under the object "
+                         "that made it" % (i, kind, own_txt))
+            if prev is not None and prev[2] != fp:
+                other = lk.call_verify(key, prev[0], prev[1])
+                other_txt = repr(other[1]) if other[0] == "ok" else type(other[1]).__name__
+                if other != ("ok", False):
+                    ctx.fail("accepted-other-key-after-earlier-keys:" + kind,
+                             dict(case, earlier_key=prev[2], earlier_data=prev[0].hex(), earlier_blob=prev[1].hex()),
+                             "key #%d accepted (%s) the signature made by the previous, different key %s"
+                             % (i, other_txt, prev[2]))
+                del other
+            prev = (data, blob, fp)
+            del key, own
+            gc.collect()
+
+
 ALLOWED_SELF_ASSIGN = {  # methods of the key classes that may assign attributes of self (construction phase only)
     ("rsakey.py", "RSAKey"): {"__init__", "_decode_key"},
     ("ecdsakey.py", "ECDSAKey"): {"__init__", "_decode_key"},
@@ -745,7 +798,8 @@ def run(ctx):
                "fields >= 2^20 on a short body, RSA leading zeros, non-minimal mpints) are not 'altered signatures'")
     ctx.build()
     table_check(ctx, "before")
-    for stream in (source_facts, text_stream, toy_stream, witness_replay, real_stream, history_stream, reentrancy_stream):
+    for stream in (source_facts, lifecycle_stream, text_stream, toy_stream, witness_replay, real_stream, history_stream,
+                   reentrancy_stream, lifecycle_stream):
         lk.guarded(ctx, stream)
     table_check(ctx, "after")
 
